@@ -24,7 +24,7 @@ RULE = ('explicit-state BFS over histories; in every distinct concrete state eve
 
 FLAG_OPS = ('filter_first', 'filter_last', 'filter_pred', 'filter_md', 'filter_none', 'filter_all',
             'remove_empty', 'transform2', 'transform_zero', 'norm', 'rank', 'pa', 'rename_long',
-            'rename_partial', 'rename_swap', 'rename_rot')
+            'rename_partial', 'rename_swap', 'rename_rot', 'rename_empty', 'rename_extra')
 _LAST_WATCH = []
 
 
@@ -49,9 +49,24 @@ def gmd(x):
     return (repr(x.group_metadata('observation')), repr(x.group_metadata('sample')))
 
 
+def lookups(x):
+    """what the id -> position lookups answer for the ids the table lists (a shared lookup that somebody else
+    patched shows here, not in ids() / the matrix)"""
+    out = []
+    for ax in ('observation', 'sample'):
+        row = []
+        for i in x.ids(ax):
+            try:
+                row.append((str(i), int(x.index(i, ax)), bool(x.exists(i, ax))))
+            except Exception as e:
+                row.append((str(i), type(e).__name__))
+        out.append(tuple(row))
+    return (tuple(out),)
+
+
 def snapshot(x):
-    """ids, values, metadata, type – and the group metadata"""
-    return O.content(x) + gmd(x)
+    """ids, values, metadata, type – the group metadata and the id lookups"""
+    return O.content(x) + gmd(x) + lookups(x)
 
 
 def starts(loaded=True):
@@ -150,7 +165,8 @@ def on_transition(tr, report):
                 if now != snap:
                     what = [n for n, a, b in zip(('observation ids', 'sample ids', 'values',
                                                    'observation metadata', 'sample metadata', 'type',
-                                                   'observation group metadata', 'sample group metadata'),
+                                                   'observation group metadata', 'sample group metadata',
+                                                   'id lookups'),
                                                   now, snap) if a != b]
                     report('aliasing:%s:%s' % (name, sname),
                            'after %s, in-place %s changes to the %s show through in the %s (%s)'
